@@ -13,7 +13,7 @@ else
   git -C /repo reset -q --hard HEAD
   echo "PATCH DOES NOT APPLY: $patch"; exit 8
 fi
-/venv/bin/python -m vf.run "$check" --tier "$tier" "$@"
+timeout 2400 /venv/bin/python -m vf.run "$check" --tier "$tier" "$@"
 rc=$?
 git -C /repo reset -q --hard HEAD
 git -C /repo checkout -- .
